@@ -409,7 +409,7 @@ func doC13(ctx context.Context, w *out.Writer, r *rand.Rand, c *sdump.Config, ro
 			if a == bb {
 				continue
 			}
-			sctx := &search.Context{Alpha: a, Beta: bb, TT: search.NoTranspositionTable{}}
+			sctx := halfOpen(r, &a, &bb)
 			fb := root.b.Fork()
 			rec0 := sdump.Rec(fb)
 			nodes, score, pv, err := c.Search.Search(ctx, sctx, fb, d)
@@ -438,7 +438,7 @@ func doC13(ctx context.Context, w *out.Writer, r *rand.Rand, c *sdump.Config, ro
 				if a == bb {
 					continue
 				}
-				sctx := &search.Context{Alpha: a, Beta: bb, TT: search.NoTranspositionTable{}}
+				sctx := halfOpen(r, &a, &bb)
 				fb := b.Fork()
 				_, score := c.Quiet.QuietSearch(ctx, sctx, fb)
 				w.Emit(out.M{"op": "qsearch", "a": proj.ScoreOf(a), "b": proj.ScoreOf(bb), "res": proj.ScoreOf(score)})
@@ -458,6 +458,21 @@ func doC13(ctx context.Context, w *out.Writer, r *rand.Rand, c *sdump.Config, ro
 		}
 	}
 	return true
+}
+
+// halfOpen builds the context for a window; one time in four only the lower bound is given and one time in
+// four only the upper one (a bound that is not set is no bound: the recorded window says so).
+func halfOpen(r *rand.Rand, a, b *eval.Score) *search.Context {
+	sctx := &search.Context{Alpha: *a, Beta: *b, TT: search.NoTranspositionTable{}}
+	switch r.Intn(4) {
+	case 0:
+		sctx.Beta = eval.Score{}
+		*b = eval.InfScore
+	case 1:
+		sctx.Alpha = eval.Score{}
+		*a = eval.NegInfScore
+	}
+	return sctx
 }
 
 var ttSizes = []uint64{32, 64, 4 << 10, 1 << 20}
